@@ -1,4 +1,5 @@
 import PlushModel
+import PlushProofs.Lib.LexerTotal
 /-!
   C03 — parsing is total. Theorems over the model of lexer + parser (PlushModel/Lexer.lean,
   PlushModel/Parser.lean), which the `parse-tok` / `parse-text` correspondence streams tie to /repo.
@@ -39,5 +40,40 @@ theorem C03_index_nil_left (fuel : Nat) (s : PS) :
   simp [P.runInfix, P.cur, P.errHere, P.addErr, bind, StateT.bind, StateT.run, get, getThe, MonadStateOf.get,
     StateT.get, pure, StateT.pure, Except.pure, Except.bind, modify, modifyGet, MonadStateOf.modifyGet,
     StateT.modifyGet]
+
+/-! ### Theorem A — the scanner is total on every byte string (proofs in `PlushProofs/Lib/LexerTotal.lean`) -/
+
+/-- NO PANIC IN THE LEXER, for every input and any number of `NextToken` calls: no slice expression of
+    `lexer.go` (`readIdentifier`, `readNumber`, `readString`, `readBString`, `readHTML`) is ever out of range. -/
+theorem C03_lexer_never_out_of_range (input : Array UInt8) (n : Nat) : lexCrashed n (LX.new input) = false :=
+  lexCrashed_false n _ (LX.new_wf input)
+
+/-- NO HANG IN THE LEXER: every `NextToken` call keeps the state invariant and, unless the scan is over
+    (NUL sentinel outside a tag, or past the input), consumes at least one byte — so every scanning loop
+    of `lexer.go` terminates, and the model's loop budgets (`size + 2`) are never what stops a loop. -/
+theorem C03_lexer_progress (l : LX) (w : l.WF) :
+    l.nextToken.2.WF ∧ l.nextToken.2.input = l.input ∧ l.pos ≤ l.nextToken.2.pos ∧
+      (¬ l.Done → l.pos < l.nextToken.2.pos) :=
+  ⟨(LX.nextToken_spec l w).1.wf, (LX.nextToken_spec l w).1.input, (LX.nextToken_spec l w).1.pos, (LX.nextToken_spec l w).2⟩
+
+/-- THE STREAM ENDS: from token number `len(input) + 1` on, `NextToken` returns one and the same EOF token
+    for ever — the fact every parser loop that tests for EOF relies on. -/
+theorem C03_lexer_stream_ends (input : Array UInt8) (k : Nat) (hk : input.size + 1 ≤ k) :
+    tokenAt k (LX.new input) = tokenAt (input.size + 1) (LX.new input) ∧ (tokenAt k (LX.new input)).type = .EOF :=
+  stream_tail_eof input k hk
+
+/-- The parser model reads the finite array `lexAll input` and repeats its last element: that is exactly the
+    unbounded token stream of the lexer, at every index. -/
+theorem C03_parser_reads_true_stream (input : Array UInt8) (i : Nat) :
+    (lexAll input).getD i ((lexAll input).back?.getD { type := .EOF, lit := [], line := 1 }) = tokenAt i (LX.new input) :=
+  lexAll_is_stream input i
+
+/-- non-vacuity: the invariant holds initially, and a state in the middle of a tag is not `Done` -/
+example : (LX.new #[60, 37, 61, 32, 97, 32, 37, 62]).WF ∧ ¬ (LX.new #[60, 37, 61, 32, 97, 32, 37, 62]).Done := by
+  refine ⟨LX.new_wf _, ?_⟩
+  intro h
+  rcases h with ⟨_, h⟩ | h
+  · exact absurd h (by decide)
+  · exact absurd h (by decide)
 
 end Plush
